@@ -5,6 +5,7 @@ import (
 	"fmt"
 	"strings"
 
+	"github.com/regclient/regclient"
 	"github.com/regclient/regclient/internal/verif/core"
 	"github.com/regclient/regclient/internal/verif/gen"
 	"github.com/regclient/regclient/internal/verif/regmodel"
@@ -37,11 +38,31 @@ func runC14(e *core.Env) {
 		simrt.Event("warm-up copy returned %v", werr)
 		e.Probe("warm-up-with-declined-mounts")
 	}
+	// "copying onto a target that already holds the identical image writes nothing at all" is not limited to the
+	// default options: when the target holds the image with its referrers and digest-tags, a copy that asks
+	// for them finds everything in place as well
+	// (only where both sides record referrers the same way: a layout or API-less registry keeps fallback tags, which
+	// the copy carries over to a target that has none of them - then the target was not identical to begin with)
+	sameRefStyle := (c.src != nil && c.tgt != nil && c.src.K.Referrers == c.tgt.K.Referrers) || (c.src == nil && c.tgt == nil)
+	if c.preState == "complete" && sameRefStyle && e.Choose("gen", 2, "identicalWithOpts") == 1 {
+		switch e.Choose("gen", 3, "identicalOpts") {
+		case 0:
+			c.opts = append(c.opts, regclient.ImageWithReferrers())
+			c.optNames = append(c.optNames, "referrers")
+		case 1:
+			c.opts = append(c.opts, regclient.ImageWithDigestTags())
+			c.optNames = append(c.optNames, "digest-tags")
+		case 2:
+			c.opts = append(c.opts, regclient.ImageWithReferrers(), regclient.ImageWithDigestTags())
+			c.optNames = append(c.optNames, "referrers", "digest-tags")
+		}
+		e.Probe("identical-target-with-options")
+	}
 	logStart := len(c.w.Net.Log)
 	e.SetCase(c.key()+fmt.Sprint(warm), true, c.describe())
 	simrt.Event("ImageCopy %s -> %s pre=%s", s.CommonName(), t.CommonName(), c.preState)
 	c.writes = nil
-	err := rc.ImageCopy(context.Background(), s, t)
+	err := rc.ImageCopy(context.Background(), s, t, c.opts...)
 	simrt.Event("ImageCopy returned %v", err)
 	drainTasks(e, 20)
 	e.Probe("pairing:" + c.pairing)
@@ -169,6 +190,9 @@ func runC14(e *core.Env) {
 	}
 	if mounts > 0 {
 		e.Probe("mounted")
+		if c.tgt != nil && c.tgt.K.MountNoLocation {
+			e.Probe("mount-granted-without-location")
+		}
 	}
 	if len(downloads) > 0 {
 		e.Probe("downloaded")
